@@ -12,9 +12,11 @@ CONFIGS = {
         {"name": "n2reps", "n": 2, "names": ["x", "cx", "z", "s", "t", "y", "cz", "cp", "h", "swap", "barrier"], "L": 4},
         {"name": "n4mcx", "n": 4, "names": ["x", "mcx", "h", "barrier"], "L": 3},
         {"name": "n5fan", "n": 5, "names": ["fan"], "L": 4},
+        {"name": "n2shared", "n": 2, "names": ["shared", "h", "barrier"], "L": 5},
     ],
     "thorough": [
         {"name": "n5fan", "n": 5, "names": ["fan", "h"], "L": 5},
+        {"name": "n2shared", "n": 2, "names": ["shared", "h", "barrier"], "L": 6},
         {"name": "n3", "n": 3, "names": ["x", "cx", "ccx", "h", "swap", "barrier"], "L": 5},
         {"name": "n2", "n": 2, "names": ["x", "cx", "h", "swap", "barrier"], "L": 7},
         {"name": "n2reps", "n": 2, "names": ["x", "cx", "z", "s", "t", "y", "cz", "cp", "h", "swap", "barrier"], "L": 5},
@@ -27,10 +29,11 @@ META = {
             "the real QCircuit API; for each, Decompiler().decompile is compared with an independent 10-line scanner (maximal classical runs, "
             "barriers transparent): same sections in order, index range covering exactly the run's non-barrier gates, section.gates = the run, "
             "and the section expressions evaluated on ALL 2^n entry values equal the bit-parallel simulation of the run for every changed "
-            "qubit (qubits without an expression unchanged). Non-trivial = circuit with >= 1 classical run containing a multi-qubit gate; "
+            "qubit (qubits without an expression unchanged). Circuits of length 1-3 are additionally taken through a history on the SAME object: decompile, replace the last gate by another letter (length unchanged), decompile again (up to 3 replacement letters), same oracle. Non-trivial = circuit with >= 1 classical run containing a multi-qubit gate; "
             "distinct = distinct gate lists.",
     "bound": {"quick": "n=3 {x,cx,ccx,h,swap,barrier} L<=4 (137k circuits); n=2 with one representative of every non-classical gate kind L<=4; "
-                       "n=4 {x,mcx(3 controls),h,barrier} L<=3",
+                       "n=4 {x,mcx(3 controls),h,barrier} L<=3; n=5 register-to-scratch fan-out alphabet L<=4; n=2 with ONE shared X and ONE shared CX "
+                       "gate object applied through append() (the same objects recur in several runs), h, barrier, L<=5",
               "thorough": "n=3 L<=5 (2.6M circuits); n=2 L<=7; representatives L<=5; n=4 with cx L<=4; n=5 register-to-scratch fan-out alphabet "
                           "(x on 3 register qubits, cx/ccx from the register onto 2 scratch qubits) L<=5 (quick: L<=4)"},
     "assumptions": ["the decompiler distinguishes non-classical gates only by type, so h (1 qubit) and swap (2 qubits) represent them at depth; "
@@ -142,7 +145,7 @@ def run_case(case):
         qc = circs.make(n, seq)
         states += 1
         rows += len(seq) + (1 << n)
-        if any(l[0] in ("cx", "ccx", "mcx") for l in seq):
+        if any(l[0] in ("cx", "ccx", "mcx") or (l[0] == "append_shared" and l[1] == "CX") for l in seq):
             nontriv += 1
         probs = check_circuit(qc, n)
         if not probs and 1 <= len(seq) <= 3:
@@ -151,7 +154,12 @@ def run_case(case):
                 if alt == seq[-1]:
                     continue
                 qc.gates.pop()
-                circs.build(qc, [alt])
+                if alt[0] == "append_shared":
+                    continue_alt = [g for g, w, p in qc.gates if g.__class__.__name__ == alt[1]]
+                    from qlasskit.qcircuit import gates as _G
+                    circs.build(qc, [alt], {alt[1]: continue_alt[0] if continue_alt else getattr(_G, alt[1])()})
+                else:
+                    circs.build(qc, [alt])
                 rows += 1 + (1 << n)
                 p2 = check_circuit(qc, n)
                 if p2:
